@@ -307,8 +307,30 @@ theorem flags_arith (t sub vf tab hw tz ks ver : Nat) (ht : t < 64) (hsub : sub 
   omega
 
 
+/-! The proofs about the *generated* definitions (`createFlags`, the getters) do not depend on the syntactic shape of the
+    generated bodies: the getters are evaluated bit by bit (`Nat.testBit` pushed through whatever `&&&`, `|||`, `>>>`,
+    `<<<`, `/ 2^k`, `% 2^k` and literal masks the body has, the rest is propositional + linear arithmetic for `grind`),
+    `createFlags` is normalised to an or of optional fields up to the order/orientation of the `|||`. -/
+
 theorem ite_or_eq (c : Bool) (a x : Nat) : (if c then a ||| x else a) = a ||| (if c then x else 0) := by
   cases c <;> simp
+theorem ite_or_eq' (c : Bool) (a x : Nat) : (if c then x ||| a else a) = a ||| (if c then x else 0) := by
+  cases c <;> simp [Nat.or_comm]
+theorem ite_zero_shiftLeft (c : Bool) (v k : Nat) : (if c then v else 0) <<< k = if c then v <<< k else 0 := by
+  cases c <;> simp
+theorem or_left_comm' (a b c : Nat) : a ||| (b ||| c) = b ||| (a ||| c) := by ac_rfl
+
+/-- prove `<body of create_flags> = <or of fields>`: every `if c then flags ||| x else flags` (or `x ||| flags`) of the
+    body becomes `flags ||| (if c then x else 0)`, then both sides agree up to the order of the `|||` (and of the `&&` in
+    the conditions); last resort: split every condition -/
+macro "mbi_flags_closed" : tactic => `(tactic| (
+  simp only [ite_or_eq, ite_or_eq', ite_zero_shiftLeft, tzTypeShift, subTypeShift, imgVerShift, hwUserKeyEnFlag, keyStoreFlag,
+    relocTableFlag, bootImageVersionFlag, Nat.reduceShiftLeft] <;>
+  first
+  | ac_rfl
+  | (simp only [Nat.or_comm, Nat.or_assoc, or_left_comm', Bool.and_comm, Bool.and_assoc, Bool.and_left_comm]; done)
+  | ((try simp only [Nat.or_comm, Nat.or_assoc, or_left_comm', Bool.and_comm, Bool.and_assoc, Bool.and_left_comm])
+     (repeat' split) <;> (try simp_all) <;> ac_rfl)))
 
 /-- `create_flags` as an or of (possibly zero) fields -/
 theorem createFlags_closed (t tz sub ver ksLen : Nat) (hTz hSub hHw hw hKs ksSet hTab tab hVer hV2T v2t : Bool) :
@@ -319,12 +341,7 @@ theorem createFlags_closed (t tz sub ver ksLen : Nat) (hTz hSub hHw hw hKs ksSet
           ||| (if hVer && (ver != 0) && hV2T && v2t then 1 else 0) <<< 10
           ||| (if hVer && (ver != 0) && hV2T && v2t then ver else 0) <<< 16 := by
   unfold createFlags
-  generalize (hHw && hw) = b3
-  generalize (hKs && ksSet && decide (ksLen > 0)) = b4
-  generalize (hTab && tab) = b5
-  generalize (hVer && (ver != 0) && hV2T && v2t) = b6
-  cases hTz <;> cases hSub <;> cases b3 <;> cases b4 <;> cases b5 <;> cases b6 <;>
-    simp [tzTypeShift, subTypeShift, hwUserKeyEnFlag, keyStoreFlag, relocTableFlag, bootImageVersionFlag]
+  mbi_flags_closed
 
 theorem and_two_pow_eq (f k : Nat) : f &&& 2 ^ k = if f.testBit k then 2 ^ k else 0 := by
   apply Nat.eq_of_testBit_eq
@@ -338,31 +355,77 @@ theorem and_two_pow_ne_zero (f k : Nat) : (f &&& 2 ^ k != 0) = decide (f / 2 ^ k
   rw [and_two_pow_eq, ← Nat.testBit_eq_decide_div_mod_eq]
   cases f.testBit k <;> simp
 
+/-! bit tests of the literal masks -/
+theorem testBit_lit1 (i : Nat) : Nat.testBit 1 i = decide (0 = i) := Nat.testBit_two_pow (n := 0) (m := i)
+theorem testBit_lit3 (i : Nat) : Nat.testBit 3 i = decide (i < 2) := Nat.testBit_two_pow_sub_one 2 i
+theorem testBit_lit63 (i : Nat) : Nat.testBit 63 i = decide (i < 6) := Nat.testBit_two_pow_sub_one 6 i
+theorem testBit_lit65535 (i : Nat) : Nat.testBit 65535 i = decide (i < 16) := Nat.testBit_two_pow_sub_one 16 i
+theorem testBit_lit1024 (i : Nat) : Nat.testBit 1024 i = decide (10 = i) := Nat.testBit_two_pow (n := 10) (m := i)
+theorem testBit_lit2048 (i : Nat) : Nat.testBit 2048 i = decide (11 = i) := Nat.testBit_two_pow (n := 11) (m := i)
+theorem testBit_lit4096 (i : Nat) : Nat.testBit 4096 i = decide (12 = i) := Nat.testBit_two_pow (n := 12) (m := i)
+theorem testBit_lit32768 (i : Nat) : Nat.testBit 32768 i = decide (15 = i) := Nat.testBit_two_pow (n := 15) (m := i)
+
+theorem div_mod_two_eq_one_iff (f k : Nat) : f / 2 ^ k % 2 = 1 ↔ f.testBit k = true := by
+  rw [Nat.testBit_eq_decide_div_mod_eq, decide_eq_true_eq]
+
+/-- unfold the generated constants and push `testBit` through the bit operations (goal and hypotheses) -/
+macro "mbi_flag_bits_simp" : tactic => `(tactic| try simp only [imageTypeMask, tzTypeMask, tzTypeShift, imgVerMask,
+  imgVerShift, subTypeMask, subTypeShift, bootImageVersionFlag, relocTableFlag, hwUserKeyEnFlag, keyStoreFlag,
+  Nat.testBit_and, Nat.testBit_or, Nat.testBit_xor, Nat.testBit_shiftRight, Nat.testBit_shiftLeft,
+  Nat.testBit_mod_two_pow, Nat.testBit_div_two_pow, Nat.testBit_two_pow, Nat.testBit_two_pow_sub_one, Nat.zero_testBit,
+  testBit_lit1, testBit_lit3, testBit_lit63, testBit_lit65535, testBit_lit1024, testBit_lit2048, testBit_lit4096,
+  testBit_lit32768, Nat.add_sub_cancel_left, Nat.add_sub_cancel] at *)
+
+/-- `X = Y` for two bit expressions over the flag word: bit by bit -/
+macro "mbi_flag_bits" : tactic => `(tactic| (apply Nat.eq_of_testBit_eq; intro i; (mbi_flag_bits_simp <;> grind)))
+
+/-- turn Boolean comparisons of numbers into (in)equalities (goal and hypotheses) -/
+macro "mbi_flag_cmp_simp" : tactic => `(tactic| try simp only [bne_iff_ne, ne_eq, beq_iff_eq, bne_eq_false_iff_eq,
+  beq_eq_false_iff_ne, Bool.not_eq_true, Bool.not_eq_false, Bool.not_eq_eq_eq_not, Bool.not_true, Bool.not_false,
+  decide_eq_true_eq, decide_eq_false_iff_not] at *)
+
+/-- close `X = Y` or `¬ X = Y` between bit expressions; for `¬`, bit `k` (or bit 0) tells them apart -/
+macro "mbi_flag_rel" k:term : tactic => `(tactic| first
+  | (apply Nat.eq_of_testBit_eq; intro i; (mbi_flag_bits_simp <;> grind))
+  | (intro h'; have h1 := congrArg (fun x => Nat.testBit x $k) h'; (mbi_flag_bits_simp <;> grind))
+  | (intro h'; have h1 := congrArg (fun x => Nat.testBit x 0) h'; (mbi_flag_bits_simp <;> grind)))
+
+/-- a Boolean getter (any comparison of a masked/shifted flag word with a number) is bit `k` of the flag word -/
+macro "mbi_flag_bool" k:term : tactic => `(tactic| (
+  rw [← Nat.testBit_eq_decide_div_mod_eq]
+  cases hb : Nat.testBit _ $k <;> mbi_flag_cmp_simp <;> mbi_flag_rel $k))
+
+/-- a field guarded by bit `k`: split the guard of the generated body (whatever its form and polarity) against bit `k` -/
+macro "mbi_flag_guarded" k:term : tactic => `(tactic| (
+  simp only [div_mod_two_eq_one_iff]
+  cases hb : Nat.testBit _ $k <;> simp only [if_true, if_false, Bool.false_eq_true, ↓reduceIte] <;> split <;>
+    rename_i hg <;> mbi_flag_cmp_simp <;>
+    first
+    | (apply Nat.eq_of_testBit_eq; intro i; (mbi_flag_bits_simp <;> grind))
+    | (exfalso; revert hg; mbi_flag_rel $k)
+    | (exfalso; apply hg; mbi_flag_rel $k)))
 
 theorem getImageType_arith (f : Nat) : getImageType f = f % 64 := by
-  simp only [getImageType, imageTypeMask]; exact Nat.and_two_pow_sub_one_eq_mod f 6
+  show _ = f % 2 ^ 6
+  unfold getImageType; mbi_flag_bits
 theorem getTzType_arith (f : Nat) : getTzType f = f / 8192 % 4 := by
-  simp only [getTzType, tzTypeMask, tzTypeShift, Nat.shiftRight_eq_div_pow]; exact Nat.and_two_pow_sub_one_eq_mod _ 2
+  show _ = f / 2 ^ 13 % 2 ^ 2
+  unfold getTzType; mbi_flag_bits
 theorem getSubType_arith (f : Nat) : getSubType f = f / 64 % 4 := by
-  simp only [getSubType, subTypeMask, subTypeShift, Nat.shiftRight_eq_div_pow]; exact Nat.and_two_pow_sub_one_eq_mod _ 2
+  show _ = f / 2 ^ 6 % 2 ^ 2
+  unfold getSubType; mbi_flag_bits
 theorem getHwKeyEnabled_arith (f : Nat) : getHwKeyEnabled f = decide (f / 4096 % 2 = 1) := by
-  simp only [getHwKeyEnabled, hwUserKeyEnFlag]; exact and_two_pow_ne_zero f 12
+  show _ = decide (f / 2 ^ 12 % 2 = 1)
+  unfold getHwKeyEnabled; mbi_flag_bool 12
 theorem getKeyStorePresented_arith (f : Nat) : getKeyStorePresented f = decide (f / 32768 % 2 = 1) := by
-  simp only [getKeyStorePresented, keyStoreFlag]; exact and_two_pow_ne_zero f 15
+  show _ = decide (f / 2 ^ 15 % 2 = 1)
+  unfold getKeyStorePresented; mbi_flag_bool 15
 theorem getAppTablePresented_arith (f : Nat) : getAppTablePresented f = decide (f / 2048 % 2 = 1) := by
-  simp only [getAppTablePresented, relocTableFlag]; exact and_two_pow_ne_zero f 11
+  show _ = decide (f / 2 ^ 11 % 2 = 1)
+  unfold getAppTablePresented; mbi_flag_bool 11
 theorem getImageVersion_arith (f : Nat) : getImageVersion f = if f / 1024 % 2 = 1 then f / 65536 % 65536 else 0 := by
-  have h := and_two_pow_ne_zero f 10
-  simp only [getImageVersion, bootImageVersionFlag, imgVerShift, imgVerMask, Nat.shiftRight_eq_div_pow]
-  have e : (f / 2 ^ 16) &&& 65535 = f / 65536 % 65536 := Nat.and_two_pow_sub_one_eq_mod _ 16
-  rw [e]
-  by_cases hb : f / 1024 % 2 = 1
-  · have : (f &&& 1024 != 0) = true := by rw [show (1024 : Nat) = 2 ^ 10 from rfl, h]; simpa using hb
-    have : ¬ (f &&& 1024) = 0 := by simpa using this
-    simp [hb, this]
-  · have : (f &&& 1024 != 0) = false := by rw [show (1024 : Nat) = 2 ^ 10 from rfl, h]; simpa using hb
-    have : (f &&& 1024) = 0 := by simpa using this
-    simp [hb, this]
+  show _ = if f / 2 ^ 10 % 2 = 1 then f / 2 ^ 16 % 2 ^ 16 else 0
+  unfold getImageVersion; mbi_flag_guarded 10
 
 theorem flags_sum_fields (t sub vf tab hw tz ks ver : Nat) (ht : t < 64) (hsub : sub < 4) (hvf : vf < 2) (htab : tab < 2)
     (hhw : hw < 2) (htz : tz < 4) (hks : ks < 2) (hver : ver < 65536) (f : Nat)
